@@ -5,6 +5,20 @@ NOTES = ("All checks are contract-based deductive verification with pyvc (DESIGN
          "contract, failed validation of an assumed external contract). Known findings: /verif/known_findings.json.")
 
 CLAIMS = {
+    "C16": {
+        "text": ("Proof with loop invariants and ghost partial sums on the real set_input_divide_by_period and "
+                 "set_input_dispatch_by_period, for every same-family (definition period, long period) pair, every start date and "
+                 "size, any number of entities and any subset of pieces set before: pieces already set are untouched, every other "
+                 "piece holds the equal share of the remainder (divide) or the value itself (dispatch), nothing outside the request "
+                 "is written, an amount contradicting fully set pieces is refused; the conservation law (pieces sum to the amount) "
+                 "and the distinctness of pieces are contract-level lemmas proved by induction."),
+        "note": ("Floats are reals (float32 rounding of shares not modelled). The holder's store enters through call-site "
+                 "contracts of Holder.get_array/_set/_to_array over a ghost view keyed by piece; Instant/Period.offset through their "
+                 "C04 contracts; numpy through the array algebra (validated against numpy per run). The routing in Holder.set_input "
+                 "is not yet under contract. One genuine defect (dispatch reused an existing array) was repaired by a fix: commit."),
+        "technique": "contract-based deductive verification (loop invariants, ghost state, inductive lemmas + SMT)",
+        "design_ref": "DESIGN.md section 4 C16",
+    },
     "C06": {
         "text": ("Proof over a symbolic history of any length (strictly decreasing list of dated entries with opaque, possibly "
                  "null values): Parameter._get_at_instant returns the value of the most recent entry on or before the date "
